@@ -107,6 +107,9 @@ def cmd : P Cmd := do
       let o ← nat; let p ← int
       pure (.op (.tree (.setParent o (if p < 0 then none else some p.toNat))))
   | "children" => do let c ← nat; let os ← ids; pure (.op (.tree (.setChildren c os)))
+  | "childrenbare" => do
+      let c ← nat; let x ← nat
+      pure (.op (.tree (.setChildren c (Forest.ChildrenArg.bare x).toList)))
   | "typed" => do let c ← nat; let k ← kind; let os ← ids; pure (.op (.tree (.setTyped c k os)))
   | "plus" => do let a ← nat; let b ← nat; pure (.op (.tree (.plus a b)))
   | "bad" => pure (.op (.tree .rejected))
